@@ -139,7 +139,7 @@ def b_equiv(ctx):
     from pylife.materialdata.woehler.likelihood import Likelihood
     warnings.simplefilter('ignore')
     analyzers = ['Elementary', 'Probit', 'MaxLikeInf', 'MaxLikeFull']
-    ctx.bound = "seeded synthetic test series (8 load levels, 3-5 tests each, run-outs on the lower levels) x analyzers {Elementary, Probit, MaxLikeInf, MaxLikeFull} x load scales {0.5, 2, 1000, 1e-4, 1e-6} x cycle scales {0.1, 10} x 3 row permutations"
+    ctx.bound = "seeded synthetic test series (8 load levels, 3-5 tests each, run-outs on the lower levels) x analyzers {Elementary, Probit, MaxLikeInf, MaxLikeFull} x load scales {0.5, 2, 1000, 1e-4, 1e-6} x cycle scales {0.1, 10} x 3 row permutations x row labels {repeating, strings, shuffled}"
     ctx.rule = "non-trivial: data set with run-outs and fractures on mixed levels; distinct by (data set, analyzer, transformation)"
     for name, df, limit in _datasets(ctx):
         for an in analyzers:
@@ -185,9 +185,33 @@ def b_equiv(ctx):
                 bad = [k for k in ('k_1', 'TN', 'TS', 'SD', 'ND') if not _close(float(got[k]), float(ref[k]), tol if an.startswith('MaxLike') else 1e-9)]
                 if bad:
                     ctx.fail(f'C18:permutation:{an}{dv(ref, got)}:{name}', f'{an} on {name}: row permutation changes {bad}', {'dataset': name, 'analyzer': an})
+            # row labels are bookkeeping: the same rows in the same order with repeating labels (a series assembled with pd.concat from several campaigns), with
+            # string labels and with the labels of a shuffled frame (added after seed C18-c selected the finite zone by label)
+            relabel = {'repeating': [i % 5 for i in range(len(df))], 'strings': [f't{i:03d}' for i in range(len(df))], 'shuffled-unique': list(np.random.default_rng(5).permutation(len(df)))}
+            for lname, labels in relabel.items():
+                d2 = df.copy()
+                d2.index = pd.Index(labels)
+                try:
+                    got = _analyze(an, d2, limit)
+                except Exception as e:   # noqa
+                    ctx.fail(f'C18:row-labels:{an}:raises:{type(e).__name__}', f'{an} on {name} with {lname} row labels raises {type(e).__name__}: {e}', {'dataset': name, 'analyzer': an, 'labels': lname})
+                    continue
+                ctx.case(True, key=(name, an, 'labels', lname))
+                bad = [k for k in ('k_1', 'TN', 'TS', 'SD', 'ND') if not _close(float(got[k]), float(ref[k]), 1e-9)]
+                if bad:
+                    ctx.fail(f'C18:row-labels:{an}{dv(ref, got)}:{name}', f'{an} on {name}: {lname} row labels change {bad}: {dict(got[["SD", "k_1", "ND", "TN", "TS"]])} vs {dict(ref[["SD", "k_1", "ND", "TN", "TS"]])}',
+                             {'dataset': name, 'analyzer': an, 'labels': lname})
         if not ctx.mine():
             continue
         # zones and likelihood
+        for lname, labels in (('repeating', [i % 5 for i in range(len(df))]),):
+            d2 = df.copy()
+            d2.index = pd.Index(labels)
+            fd2 = woehler.determine_fractures(d2, limit).fatigue_data
+            fd1 = woehler.determine_fractures(df, limit).fatigue_data
+            ctx.case(True, key=(name, 'zones', lname))
+            if len(fd2.finite_zone) != len(fd1.finite_zone) or len(fd2.infinite_zone) != len(fd1.infinite_zone) or sorted(fd2.finite_zone.load) != sorted(fd1.finite_zone.load):
+                ctx.fail('C18:zones:row-labels', f'{name}: with {lname} row labels the zones hold {len(fd2.finite_zone)} + {len(fd2.infinite_zone)} tests instead of {len(fd1.finite_zone)} + {len(fd1.infinite_zone)}', {'dataset': name, 'labels': lname})
         fd = woehler.determine_fractures(df, limit).fatigue_data
         tr = fd.finite_infinite_transition
         fz, iz = fd.finite_zone, fd.infinite_zone
